@@ -14,6 +14,14 @@
  *   rt   <prec> <pf> <bottomup> <align> <padsamples> <ext> <w> <h> <seed>
  *        -> rt ok <checksum>  |  rt MISMATCH ...  |  rt err ...
  *           (random in-range image; save; load; compare; every sample <= 2^prec-1)
+ *   loadx <bits> <prec> <pf> <bottomup> <align> <maxpixels> <hex>
+ *        same through tj3LoadImage<bits> (8/12/16) with TJPARAM_PRECISION=<prec>, whatever the file is
+ *   cjx  <maxpixels> <is_targa> <precision> <hex>
+ *        cjpeg -precision N: reader variant by N, precision re-applied after start_input (cjpeg
+ *        re-parses its switches), -lossless 1 when N is not 8 or 12, rows passed on through
+ *        buffer / buffer12 / buffer16 by N;  BAD_PRECISION is printed as  cj err BADPREC
+ *   argv[2] = "fork": every case runs in a forked child; a child that dies prints nothing and the
+ *        parent prints  CRASH <how> <first sanitizer line>
  *   cj   <maxpixels> <is_targa> <hex>
  *        -> cj ok <w> <h> <comps> <sum>  |  cj err <code>
  *           (what cjpeg's main() does: select_file_type, start_input,
@@ -25,6 +33,8 @@
 #include <setjmp.h>
 #include <signal.h>
 #include <unistd.h>
+#include <sys/wait.h>
+#include <fcntl.h>
 #include "cdjpeg.h"
 #include "turbojpeg.h"
 
@@ -123,15 +133,20 @@ static int do_save(tjhandle h, int prec, const char *fn, void *buf, int w, int p
   return tj3SaveImage16(h, fn, buf, w, pitch, hh, pf);
 }
 
-static void cmd_load(char *p)
+static void cmd_load(char *p, int explicit_bits)
 {
-  int prec, pf, bottomup, align, n = 0, w = 0, hh = 0, xo, ps, pitch, r, c;
+  int bits = 0, prec, pf, bottomup, align, n = 0, w = 0, hh = 0, xo, ps, pitch, r, c;
   long maxpixels;
   size_t len;
   unsigned char *bytes;
   void *buf;
   tjhandle h;
+  if (explicit_bits) {
+    if (sscanf(p, "%d %n", &bits, &n) < 1 || (bits != 8 && bits != 12 && bits != 16)) { printf("bad case\n"); return; }
+    p += n;
+  }
   if (sscanf(p, "%d %d %d %d %ld %n", &prec, &pf, &bottomup, &align, &maxpixels, &n) < 5) { printf("bad case\n"); return; }
+  if (!explicit_bits) bits = prec <= 8 ? 8 : prec <= 12 ? 12 : 16;
   bytes = unhex(p + n, &len);
   write_file(tmpname, bytes, len);
   free(bytes);
@@ -139,7 +154,7 @@ static void cmd_load(char *p)
   tj3Set(h, TJPARAM_PRECISION, prec);
   tj3Set(h, TJPARAM_BOTTOMUP, bottomup);
   tj3Set(h, TJPARAM_MAXPIXELS, (int)maxpixels);
-  buf = do_load(h, prec, tmpname, &w, align, &hh, &pf);
+  buf = do_load(h, bits, tmpname, &w, align, &hh, &pf);   /* do_load selects the entry point by sample width */
   if (!buf) {
     printf("err %s\n", err_class(tj3GetErrorStr(h)));
     tj3Destroy(h);
@@ -151,7 +166,7 @@ static void cmd_load(char *p)
   printf("ok %d %d %d |", w, hh, pf);
   for (r = 0; r < hh; r++)
     for (c = 0; c < w * ps; c++)
-      printf(" %d", (xo >= 0 && c % ps == xo) ? 0 : get_sample(buf, prec, (size_t)r * pitch + c));
+      printf(" %d", (xo >= 0 && c % ps == xo) ? 0 : get_sample(buf, bits, (size_t)r * pitch + c));
   printf("\n");
   tj3Free(buf);
   tj3Destroy(h);
@@ -275,7 +290,7 @@ static int cj_code;
 static void cj_exit(j_common_ptr c) { cj_code = c->err->msg_code; longjmp(cjb, 1); }
 static void cj_emit(j_common_ptr c, int lvl) { if (lvl < 0) c->err->num_warnings++; }
 
-static void cmd_cj(char *p)
+static void cmd_cj(char *p, int with_prec)
 {
   struct jpeg_compress_struct cinfo;
   struct jpeg_error_mgr jerr;
@@ -284,11 +299,13 @@ static void cmd_cj(char *p)
   unsigned char *volatile outbuf = NULL;
   unsigned long outsize = 0;
   long maxpixels;
-  int n = 0, c, is_targa = 0;
+  int n = 0, c, is_targa = 0, prec = 8;
   size_t len;
   unsigned char *bytes;
   unsigned long long sum = 0;
-  if (sscanf(p, "%ld %d %n", &maxpixels, &is_targa, &n) < 2) { printf("bad case\n"); return; }
+  if (with_prec) {
+    if (sscanf(p, "%ld %d %d %n", &maxpixels, &is_targa, &prec, &n) < 3 || prec < 2 || prec > 16) { printf("bad case\n"); return; }
+  } else if (sscanf(p, "%ld %d %n", &maxpixels, &is_targa, &n) < 2) { printf("bad case\n"); return; }
   bytes = unhex(p + n, &len);
   write_file(tmpname, bytes, len);
   free(bytes);
@@ -297,7 +314,8 @@ static void cmd_cj(char *p)
   jerr.emit_message = cj_emit;
   jpeg_create_compress(&cinfo);
   if (setjmp(cjb)) {
-    printf("cj err %d\n", cj_code);
+    if (cj_code == JERR_BAD_PRECISION) printf("cj err BADPREC\n");
+    else printf("cj err %d\n", cj_code);
     jpeg_destroy_compress(&cinfo);
     if (f) fclose(f);
     free(outbuf);
@@ -305,14 +323,21 @@ static void cmd_cj(char *p)
   }
   cinfo.in_color_space = JCS_RGB;
   jpeg_set_defaults(&cinfo);
+  cinfo.data_precision = prec;          /* first parse_switches() pass */
   f = fopen(tmpname, "rb");
-  if ((c = getc(f)) == EOF) ERREXIT(&cinfo, JERR_INPUT_EMPTY);
-  ungetc(c, f);
-  if (is_targa) c = 0x00;       /* cjpeg -targa */
+  if (is_targa) c = 0x00;       /* cjpeg -targa: select_file_type() does not look at the file */
+  else {
+    if ((c = getc(f)) == EOF) ERREXIT(&cinfo, JERR_INPUT_EMPTY);
+    ungetc(c, f);
+  }
   switch (c) {
   case 'B': src = jinit_read_bmp(&cinfo, TRUE); break;
   case 'G': src = jinit_read_gif(&cinfo); break;
-  case 'P': src = jinit_read_ppm(&cinfo); break;
+  case 'P':
+    if (cinfo.data_precision <= 8) src = jinit_read_ppm(&cinfo);
+    else if (cinfo.data_precision <= 12) src = j12init_read_ppm(&cinfo);
+    else src = j16init_read_ppm(&cinfo);
+    break;
   case 0x00: src = jinit_read_targa(&cinfo); break;
   default: ERREXIT(&cinfo, JERR_UNKNOWN_FORMAT);
   }
@@ -320,14 +345,23 @@ static void cmd_cj(char *p)
   src->max_pixels = (JDIMENSION)maxpixels;
   (*src->start_input) (&cinfo, src);
   jpeg_default_colorspace(&cinfo);
+  cinfo.data_precision = prec;          /* second parse_switches() pass (for_real) */
+  if (prec != 8 && prec != 12) jpeg_enable_lossless(&cinfo, 1, 0);   /* -lossless 1 */
   jpeg_mem_dest(&cinfo, (unsigned char **)&outbuf, &outsize);
   jpeg_start_compress(&cinfo, TRUE);
   while (cinfo.next_scanline < cinfo.image_height) {
     JDIMENSION nl = (*src->get_pixel_rows) (&cinfo, src), i, j;
-    for (i = 0; i < nl; i++)
-      for (j = 0; j < cinfo.image_width * (JDIMENSION)cinfo.input_components; j++)
-        sum = sum * 31 + src->buffer[i][j];
-    jpeg_write_scanlines(&cinfo, src->buffer, nl);
+    JDIMENSION rowlen = cinfo.image_width * (JDIMENSION)cinfo.input_components;
+    if (cinfo.data_precision <= 8) {
+      for (i = 0; i < nl; i++) for (j = 0; j < rowlen; j++) sum = sum * 31 + src->buffer[i][j];
+      jpeg_write_scanlines(&cinfo, src->buffer, nl);
+    } else if (cinfo.data_precision <= 12) {
+      for (i = 0; i < nl; i++) for (j = 0; j < rowlen; j++) sum = sum * 31 + (unsigned short)src->buffer12[i][j];
+      jpeg12_write_scanlines(&cinfo, src->buffer12, nl);
+    } else {
+      for (i = 0; i < nl; i++) for (j = 0; j < rowlen; j++) sum = sum * 31 + src->buffer16[i][j];
+      jpeg16_write_scanlines(&cinfo, src->buffer16, nl);
+    }
   }
   (*src->finish_input) (&cinfo, src);
   jpeg_finish_compress(&cinfo);
@@ -337,27 +371,76 @@ static void cmd_cj(char *p)
   free(outbuf);
 }
 
+static void run_case(char *p)
+{
+  if (!strncmp(p, "load ", 5)) cmd_load(p + 5, 0);
+  else if (!strncmp(p, "loadx ", 6)) cmd_load(p + 6, 1);
+  else if (!strncmp(p, "save ", 5)) cmd_save(p + 5);
+  else if (!strncmp(p, "rt ", 3)) cmd_rt(p + 3);
+  else if (!strncmp(p, "cj ", 3)) cmd_cj(p + 3, 0);
+  else if (!strncmp(p, "cjx ", 4)) cmd_cj(p + 4, 1);
+  else printf("bad command\n");
+}
+
+/* first line of a sanitizer report (or the last line of stderr) left by a dead child */
+static void report_child_stderr(const char *fn)
+{
+  FILE *f = fopen(fn, "r");
+  char buf[512], keep[512] = "";
+  if (!f) return;
+  while (fgets(buf, sizeof(buf), f)) {
+    size_t k = strlen(buf);
+    while (k && (buf[k - 1] == '\n' || buf[k - 1] == '\r')) buf[--k] = 0;
+    if (!k) continue;
+    if (strstr(buf, "ERROR: ") || strstr(buf, "runtime error")) { strcpy(keep, buf); break; }
+    if (!keep[0]) strcpy(keep, buf);
+  }
+  fclose(f);
+  printf(" %s", keep);
+}
+
 int main(int argc, char **argv)
 {
   ssize_t n;
+  int forking = argc > 2 && !strcmp(argv[2], "fork");
+  char errname[4200];
   setvbuf(stdout, NULL, _IOFBF, 1 << 16);
-  if (argc < 2) { fprintf(stderr, "usage: c18 <scratch-dir>\n"); return 2; }
+  if (argc < 2) { fprintf(stderr, "usage: c18 <scratch-dir> [fork]\n"); return 2; }
   snprintf(tmpname, sizeof(tmpname), "%s/c18_%ld.img", argv[1], (long)getpid());
   snprintf(tmpbmp, sizeof(tmpbmp), "%s/c18_%ld.bmp", argv[1], (long)getpid());
+  snprintf(errname, sizeof(errname), "%s/c18_%ld.err", argv[1], (long)getpid());
   signal(SIGALRM, on_alarm);
   while ((n = getline(&line, &linecap, stdin)) > 0) {
     char *p = line;
     if (n && p[n - 1] == '\n') p[n - 1] = 0;
+    if (forking) {
+      pid_t pid;
+      int st = 0;
+      fflush(stdout);
+      pid = fork();
+      if (pid == 0) {
+        int fd = open(errname, O_WRONLY | O_CREAT | O_TRUNC, 0600);
+        if (fd >= 0) { dup2(fd, 2); close(fd); }
+        alarm(20);
+        run_case(p);
+        fflush(stdout);
+        _exit(0);
+      }
+      if (pid < 0) { perror("fork"); return 2; }
+      while (waitpid(pid, &st, 0) < 0) ;
+      if (WIFSIGNALED(st)) { printf("CRASH signal %d", WTERMSIG(st)); report_child_stderr(errname); printf("\n"); }
+      else if (WEXITSTATUS(st) == 3) ;                      /* TIMEOUT line already printed by the child */
+      else if (WEXITSTATUS(st) != 0) { printf("CRASH exit %d", WEXITSTATUS(st)); report_child_stderr(errname); printf("\n"); }
+      fflush(stdout);
+      continue;
+    }
     alarm(20);
-    if (!strncmp(p, "load ", 5)) cmd_load(p + 5);
-    else if (!strncmp(p, "save ", 5)) cmd_save(p + 5);
-    else if (!strncmp(p, "rt ", 3)) cmd_rt(p + 3);
-    else if (!strncmp(p, "cj ", 3)) cmd_cj(p + 3);
-    else printf("bad command\n");
+    run_case(p);
     alarm(0);
     fflush(stdout);     /* one flush per case: output survives a crash */
   }
   unlink(tmpname);
   unlink(tmpbmp);
+  unlink(errname);
   return 0;
 }
